@@ -52,7 +52,15 @@ static void drv_setup(int argc, char **argv)
     if (argc > 1) PROBES = atoi(argv[1]);
 }
 static void drv_header(jb_t *b) { jb_printf(b, "\"w\":%d,\"maxlen\":%d", WBYTES, MAXLEN); }
-static void drv_reset(void) { a_reset(); S(init)(&T); }
+static void drv_reset(void)
+{
+    a_reset();
+#ifdef USE_INITIALIZER
+    { str_t x = CSTL_STRING_INITIALIZER(ch_t); T = x; }
+#else
+    S(init)(&T);
+#endif
+}
 static void drv_aborted(void) { a_end(); }
 
 static void partner_make(str_t *p, int lit)
